@@ -71,9 +71,9 @@ BEFORE_PREDICATE = StructuralPredicate("before", 2, is_before)
 
 
 def is_after(_: DerivationTree, path_1: Path, path_2: Path) -> bool:
-    return (
-        not is_before(_, path_1, path_2) and path_1 != path_2[: len(path_1)]
-    )  # No prefix
+    # `path_1` occurs after `path_2` iff `path_2` occurs before `path_1`; in
+    # particular, neither node is below the other one.
+    return is_before(_, path_2, path_1)
 
 
 AFTER_PREDICATE = StructuralPredicate("after", 2, is_after)
